@@ -21,7 +21,8 @@ rm -f $R/$D/zz_seed_demo_test.go
 echo "SEEDEVAL $P demo_without=$BASE demo_with=$MUT suite_with=$SUITE"
 cd /verif
 for Q in $P $EXTRA; do
-  OUT=$(VERIF_REPO=$R ./check $Q quick 2>/dev/null | grep -v "^KNOWN-FINDING\|^NOTE"); RC=${PIPESTATUS[0]}
+  VERIF_REPO=$R ./check $Q quick >/tmp/evalrepo.check.out 2>/dev/null; RC=$?
+  OUT=$(grep -v "^KNOWN-FINDING\|^NOTE" /tmp/evalrepo.check.out)
   echo "SEEDEVAL $P check=$Q -> ${OUT:-exit$RC-no-violation-line}"
 done
 git -C $R checkout -q -- . ; git -C $R clean -fdq
